@@ -76,6 +76,11 @@ var pinned = []string{
 	"`# c0`",
 	"echo `foo # c0\n`",
 	"a; b; c", "a\n\n\nb", "a \\\n b \\\n c", "{ a; b; }", "(a; b)", "a & b & c",
+	// arithmetic: a sign operator next to an operand that starts with a sign (see ArithInputs)
+	"echo $((a - -b * c)) $((a + +b / c)) $((a - --b % c)) $((a++ + ++b * c))",
+	"echo ${x:a - -b*c} ${x:1:a - --b % c} ${x: -a * b:c + +d * e}",
+	"((a - -b * c, d += +e * f, g -= -h / i))",
+	"a[1 - -2 * 3]=x; echo ${a[i + +j % 2]}",
 	// witnesses of fixed findings
 	"case x in a) b;; esac\nfoo", "echo $(foo &)\nbar", "{ foo & }\nbar",
 	"cat <<-EOF\n\ttab\there\n\tEOF",
@@ -298,6 +303,21 @@ func Enumerate(eo EnumOpts, emit func(Input)) (stats map[string]int) {
 			}
 		}
 	}
+	// arithmetic adjacency enumeration: bash plus one of posix/mksh (alternating)
+	for a, src := range ArithInputs() {
+		idx++
+		if !in(idx) {
+			continue
+		}
+		for _, l := range []syntax.LangVariant{syntax.LangBash, Langs[1+a%2]} {
+			if _, err := Parse(src, l, true); err != nil {
+				stats["arith_noparse"]++
+				continue
+			}
+			stats["arith"]++
+			emit(Input{ID: "arith:" + strconv.Itoa(a) + ":" + l.String(), Kind: "arith", Src: src, Lang: l})
+		}
+	}
 	for li, l := range Langs {
 		if l == syntax.LangZsh {
 			continue
@@ -317,6 +337,50 @@ func Enumerate(eo EnumOpts, emit func(Input)) (stats map[string]int) {
 		}
 	}
 	return stats
+}
+
+// ArithInputs is a fixed, systematic enumeration of small arithmetic expressions in every
+// arithmetic context, aimed at operator adjacency in the (compact) arithmetic printer: a
+// binary operator followed by an operand whose LEFTMOST leaf carries a prefix sign operator,
+// possibly under a tighter-binding binary operator (no parentheses in the tree), and
+// postfix ++/-- on the left. The source text always separates tokens with blanks.
+func ArithInputs() []string {
+	unary := []string{"b", "-b", "+b", "!b", "~b", "++b", "--b", "- -b", "+ +b", "- --b", "+ ++b", "b++", "b--", "-1", "$b", "-$b"}
+	tight := []string{"*", "/", "%", "**"}
+	var ys []string
+	ys = append(ys, unary...)
+	for _, u := range unary {
+		for _, op := range tight {
+			ys = append(ys, u+" "+op+" c")
+		}
+	}
+	for _, u := range []string{"-b", "+b", "--b", "++b"} {
+		ys = append(ys, u+" * c / d", u+" ? c : d", "c * "+u, "c ? "+u+" : "+u)
+	}
+	xs := []string{"a", "a++", "a--"}
+	ops := []string{"+", "-", "+=", "-=", "*", "<<", "&&", ","}
+	var exprs []string
+	for _, x := range xs {
+		for _, op := range ops {
+			if (op == "+=" || op == "-=") && x != "a" {
+				continue
+			}
+			for _, y := range ys {
+				exprs = append(exprs, x+" "+op+" "+y)
+			}
+		}
+	}
+	for _, u := range unary { // the operand alone, and under a prefix sign
+		exprs = append(exprs, u, "- "+u, "+ "+u)
+	}
+	ctxs := []string{"echo $((%s))", "((%s))", "echo ${x:%s}", "echo ${x:1:%s}", "a[%s]=1", "echo ${a[%s]}", "echo \"$((%s))\" $[%s]", "for ((i = %s; i < 3; i++)); do :; done"}
+	var out []string
+	for _, e := range exprs {
+		for _, c := range ctxs {
+			out = append(out, strings.ReplaceAll(c, "%s", e))
+		}
+	}
+	return out
 }
 
 func init() { sort.Strings(pinned) }
